@@ -13,6 +13,7 @@ import (
 
 func init() {
 	env.Register("C17_Filter", C17_Filter)
+	env.Register("C17_Flood", C17_Flood)
 	env.Register("C17_MainLoopForward", C17_MainLoopForward)
 	env.Register("C18_NodeLeader", C18_NodeLeader)
 	env.Register("C17_LeaveCommittee", C17_LeaveCommittee)
@@ -124,6 +125,37 @@ func C17_Filter() {
 			env.Reach("C17.some_delivery")
 		}
 	}
+}
+
+// C17_Flood: `count` messages of distinct senders for ONE future height (a large committee whose traffic arrives
+// early, or a member flooding), with symbolic heights; then the node starts that height: every one of them is
+// delivered, in arrival order. The cache has no per-height capacity in the statement.
+func C17_Flood() {
+	count := env.Param("count")
+	me := primitives.MemberId{1}
+	const instance = primitives.InstanceId(7)
+	st := state.NewState()
+	h0 := env.NondetU64("h0")
+	env.Assume(h0 >= 1 && h0 < 1<<62)
+	st.SetHeightAndResetView(primitives.BlockHeight(h0))
+	f := rawmessagesfilter.NewConsensusMessageFilter(instance, me, stub.NopLogger{}, st)
+	rec := &c17Handler{st: st}
+	f.ConsumeCacheMessages(rec)
+	reg := stub.NewRegistry()
+	nh := env.NondetU64("nh")
+	env.Assume(nh > h0 && nh < 1<<62)
+	fac := messagesfactory.NewMessageFactory(instance, stub.NewKeyManager(reg, primitives.MemberId{2}), primitives.MemberId{2}, 0)
+	for i := 0; i < count; i++ {
+		pm := fac.CreatePrepareMessage(primitives.BlockHeight(nh), 0, primitives.BlockHash{byte(i)})
+		rec.msgs = append(rec.msgs, &c17Msg{tag: i, height: nh, instanceOK: true, curAtRecv: h0, cacheable: true})
+		f.HandleConsensusRawMessage(pm.ToConsensusRawMessage())
+	}
+	st.SetHeightAndResetView(primitives.BlockHeight(nh))
+	f.ConsumeCacheMessages(rec)
+	for _, m := range rec.msgs {
+		env.Assert("C17.guaranteed_delivery", m.delivered)
+	}
+	env.Reach("C17.flood.done")
 }
 
 // C17_MainLoopForward: the step before the filter. A genuine PREPARE with a symbolic (any) height and instance is
